@@ -225,7 +225,7 @@ def oracleC09 (op : String) (args : List Bytes) (impl : String) : String × Stri
         else
           let expW := args.map fun c => s!"ok{c.length}/"
           let okW := rs.length == expW.length && (rs.zip expW).all fun (r, e) => r.startsWith e
-          let expEnt := recs.map fun r => match S.parse (r ++ [10]) with
+          let expEnt := recs.map fun r => match S.parse r with
             | .ok v => hexEncode (S.print v) | .error _ => "?"
           let allCanon := recs.all fun r => S.canonical (r ++ [10])
           if !okW then ("fail:a-write-of-a-well-formed-stream-did-not-succeed-with-full-length", nt)
